@@ -125,6 +125,19 @@ def time_limit(n_chars):
     return 10.0 + 2.0 * (n_chars / 1000.0) ** 2
 
 
+_CLK = os.sysconf("SC_CLK_TCK") if hasattr(os, "sysconf") else 100
+
+
+def _cpu_seconds(pid):
+    """user + system CPU time of a running process (0.0 when it cannot be read)"""
+    try:
+        with open("/proc/%d/stat" % pid) as f:
+            fields = f.read().rsplit(")", 1)[1].split()
+        return (int(fields[11]) + int(fields[12])) / float(_CLK)
+    except (OSError, ValueError, IndexError):
+        return 0.0
+
+
 def _run_shard(idx, reqs, tag):
     """run one bobdrive process over reqs with crash/timeout attribution; returns dict id->resp"""
     d = rundir()
@@ -144,6 +157,7 @@ def _run_shard(idx, reqs, tag):
                                 stderr=subprocess.DEVNULL)
         last_size = -1
         last_change = time.time()
+        cpu_at_change = 0.0
         inflight_limit = 30.0
         killed = False
         while True:
@@ -157,9 +171,11 @@ def _run_shard(idx, reqs, tag):
             except OSError:
                 size = 0
             now = time.time()
+            cpu = _cpu_seconds(proc.pid)
             if size != last_size:
                 last_size = size
                 last_change = now
+                cpu_at_change = cpu
                 # find the request in flight to compute its limit
                 try:
                     with open(fout, "rb") as f:
@@ -170,7 +186,10 @@ def _run_shard(idx, reqs, tag):
                         inflight_limit = time_limit(len(byid[int(m[-1])]["input"]))
                 except OSError:
                     pass
-            elif now - last_change > inflight_limit:
+            elif (cpu - cpu_at_change > inflight_limit) or (now - last_change > 30 * inflight_limit):
+                # the limit L(n) is measured in CPU time of the converting process, so that a loaded machine cannot turn a
+                # millisecond conversion into a "hang"; a process that burns no CPU at all (blocked) is given 30 x L(n) of
+                # wall time before it counts as not terminating
                 proc.kill()
                 proc.wait()
                 killed = True
